@@ -355,7 +355,7 @@ func (f *Frame) prepare() {
 		for i, ins := range b.Instrs {
 			if d, ok := ins.(*ssa.DebugRef); ok {
 				if obj := d.Object(); obj != nil {
-					if _, isVar := obj.(*types.Var); isVar {
+					if v, isVar := obj.(*types.Var); isVar && !v.IsField() {
 						f.drefs[obj.Name()] = append(f.drefs[obj.Name()], dref{b, i, d.X, d.IsAddr})
 					}
 				}
